@@ -327,6 +327,11 @@ pub fn compare_obs<const N: usize>(g: &Sodg<N>, m: &Model, labels: &[u8]) -> Vec
     if keys != mk {
         out.push(("alive-mismatch".to_string(), format!("keys()={keys:?} but the model's alive set is {mk:?}")));
     }
+    match guarded(|| g.is_empty()) {
+        Ok(e) if e == keys.is_empty() => {}
+        Ok(e) => out.push(("alive-mismatch".to_string(), format!("is_empty()={e} but keys() has {} entries", keys.len()))),
+        Err(e) => out.push(("panic-keys".to_string(), format!("is_empty() panicked: {e}"))),
+    }
     match guarded(|| g.len()) {
         Ok(l) if l == keys.len() => {}
         Ok(l) => out.push(("alive-mismatch".to_string(), format!("len()={l} but keys() has {} entries", keys.len()))),
